@@ -180,8 +180,8 @@ theorem layersOK_sound : ∀ (cs : List CtorRow) (ms gs : List WrapRow), layersO
       cases gs with
       | nil => simp [layersOK] at h
       | cons g gs =>
-        simp only [layersOK, Bool.and_eq_true, beq_iff_eq] at h
-        obtain ⟨⟨⟨⟨⟨⟨⟨⟨⟨h1, h2⟩, h3⟩, h4⟩, h5⟩, h6⟩, h7⟩, h8⟩, h9⟩, h10⟩, hrest⟩ := h
+        simp only [layersOK, Bool.and_eq_true, beq_iff_eq, and_assoc] at h
+        obtain ⟨h1, h2, h3, h4, h5, h6, h7, h8, h9, h10, hrest⟩ := h
         obtain ⟨iha, ihb, ihc⟩ := ih ms gs hrest
         refine ⟨by simp [h1, iha], by simp [h2, ihb], ?_⟩
         intro i c' hc'
@@ -199,11 +199,13 @@ theorem names_coincide :
     intro t ht
     have := layersOK_sound _ _ _ (shards_ok t ht).2
     exact ⟨this.1, this.2.1⟩
+  have h1 : shardTriples.map (fun t => t.1.map (·.name)) = shardTriples.map (fun t => t.2.1.map (·.name)) :=
+    List.map_congr_left (fun t ht => (h t ht).1)
+  have h2 : shardTriples.map (fun t => t.1.map (·.name)) = shardTriples.map (fun t => t.2.2.map (·.name)) :=
+    List.map_congr_left (fun t ht => (h t ht).2)
   simp only [ctors, methods, globals, ← shardTriples_ctors, ← shardTriples_methods, ← shardTriples_globals,
     List.map_flatten, List.map_map]
-  constructor
-  · congr 1; apply List.map_congr_left; intro t ht; exact (h t ht).1
-  · congr 1; apply List.map_congr_left; intro t ht; exact (h t ht).2
+  exact ⟨congrArg List.flatten h1, congrArg List.flatten h2⟩
 
 /-- What is established about one function name: the constructor row `c`, the
 method row `m` and the global row `g` of a shard position. -/
